@@ -170,8 +170,14 @@ def cmd_lock():
     ok, out = build.lake_build(targets)
     if not ok:
         print(out[-3000:]); return 1
-    res, raw = build.audit_axioms(sorted(set(allthms)))
-    lock = {t: r["statement"] for t, r in res.items()}
+    # audit per property, with exactly the imports the check itself uses (pretty-printing of a
+    # statement depends on the set of imported modules)
+    lock, raw = {}, ""
+    for P in props.REGISTRY.values():
+        res, r1 = build.audit_axioms(P.theorems)
+        raw += r1
+        for t, r in res.items():
+            lock[t] = r["statement"]
     missing = [t for t, s in lock.items() if not s]
     if missing:
         print("could not read statements of", missing); print(raw[-3000:]); return 1
